@@ -144,6 +144,7 @@ func (gen *generator) createAttrGroupDefs() {
 	// 4a2. Index attribute group IDs and create scaffolding IR attribute group
 	//      definitions (without bodies).
 	for id := range gen.old.attrGroupDefs {
+		verifTrace(gen, "createAttrGroup", enc.AttrGroupID(id))
 		new := &ir.AttrGroupDef{ID: id}
 		gen.new.attrGroupDefs[id] = new
 	}
@@ -160,6 +161,7 @@ func (gen *generator) createNamedMetadataDefs() {
 	// 4a3. Index metadata names and create scaffolding IR named metadata
 	//      definitions (without bodies).
 	for name := range gen.old.namedMetadataDefs {
+		verifTrace(gen, "createNamedMetadata", name)
 		new := &metadata.NamedDef{Name: name}
 		gen.new.namedMetadataDefs[name] = new
 	}
@@ -176,6 +178,7 @@ func (gen *generator) createMetadataDefs() {
 	// 4a4. Index metadata IDs and create scaffolding IR metadata definitions
 	//      (without bodies).
 	for id, md := range gen.old.metadataDefs {
+		verifTrace(gen, "createMetadata", enc.MetadataID(id))
 		new := newMetadataDef(id, md)
 		gen.new.metadataDefs[id] = new
 	}
@@ -318,6 +321,7 @@ func (gen *generator) translateComdatDefs() {
 	//
 	// Note: step 3 and the substeps of 4a can be done concurrently.
 	for name, old := range gen.old.comdatDefs {
+		verifTrace(gen, "translateComdat", name)
 		new := &ir.ComdatDef{
 			Name: name,
 			Kind: asmenum.SelectionKindFromString(old.Kind().Text()),
@@ -333,6 +337,7 @@ func (gen *generator) translateComdatDefs() {
 func (gen *generator) translateAttrGroupDefs() {
 	// 4b2. Translate AST attribute group definitions to IR.
 	for id, old := range gen.old.attrGroupDefs {
+		verifTrace(gen, "translateAttrGroup", enc.AttrGroupID(id))
 		new, ok := gen.new.attrGroupDefs[id]
 		if !ok {
 			panic(fmt.Errorf("unable to locate attribute group ID %q", enc.AttrGroupID(id)))
@@ -369,6 +374,7 @@ func (gen *generator) irAttrGroupDef(new *ir.AttrGroupDef, oldDefs []*ast.AttrGr
 func (gen *generator) translateNamedMetadataDefs() error {
 	// 4b3. Translate AST named metadata definitions to IR.
 	for name, old := range gen.old.namedMetadataDefs {
+		verifTrace(gen, "translateNamedMetadata", name)
 		new, ok := gen.new.namedMetadataDefs[name]
 		if !ok {
 			panic(fmt.Errorf("unable to locate metadata name %q", enc.MetadataName(name)))
@@ -403,6 +409,7 @@ func (gen *generator) irNamedMetadataDef(new *metadata.NamedDef, old *ast.NamedM
 func (gen *generator) translateMetadataDefs() error {
 	// 4b4. Translate AST metadata definitions to IR.
 	for id, old := range gen.old.metadataDefs {
+		verifTrace(gen, "translateMetadata", enc.MetadataID(id))
 		new, ok := gen.new.metadataDefs[id]
 		if !ok {
 			panic(fmt.Errorf("unable to locate metadata ID %q", enc.MetadataID(id)))
